@@ -4,7 +4,9 @@ from model import expr as M
 BOUNDARY_K = [1, 2, 3, 4, 7, 8, 9, 15, 16, 17, 31, 32, 33, 63, 64, 65, 127, 128, 129, 160]
 
 ASCII_CHARS = "abcXYZ019 _-+*/!#%&()[]{}<>=?@^|~.,:;'`$"
-MULTI_CHARS = ["é", "ñ", "ß", "Ω", "д", "中", "日", "€", "😀", "𝄞", "ÿ", "\u0080", "߿", "ࠀ", "￿"]
+MULTI_CHARS = ["é", "ñ", "ß", "Ω", "д", "中", "日", "€", "😀", "𝄞", "ÿ", "\u0080", "߿", "ࠀ", "￿",
+               # code points whose low 16 / low 8 bits look like an ASCII or Latin-1 character, first and last of each plane
+               "\U00010041", "\U00020042", "\U000e0041", "\U00100041", "\U00010000", "\U0010ffff", "\u0141", "\uff41", "\U000100e9"]
 
 
 def lit_int(rng, v, force_base=None):
